@@ -19,6 +19,7 @@ import (
 	"tunnox-core/internal/cloud/configs"
 	"tunnox-core/internal/cloud/models"
 	"tunnox-core/internal/packet"
+	"tunnox-core/internal/protocol/session"
 	"tunnox-core/internal/stream"
 	vk "tunnox-core/internal/verifkit"
 )
@@ -444,6 +445,9 @@ func TestVerifC02Lifecycle(t *testing.T) {
 	}
 
 	if !stop && run.Violations() < 10 {
+		undecided += c02lNoTarget(t, run, node, src, tgt, run.Pick(12, 100))
+	}
+	if !stop && run.Violations() < 10 {
 		undecided += c02lReconnect(t, run, node, src, tgt, run.Pick(4, 24))
 	}
 
@@ -463,6 +467,8 @@ func TestVerifC02Lifecycle(t *testing.T) {
 	run.Floor("bridge_registered", int64(n*3/4))
 	run.Floor("prewrite_ack_then_exact_stream", int64(run.Pick(30, 220)))
 	run.Floor("reconnect_source_reattached", int64(run.Pick(4, 24)))
+	run.Floor("notarget_forgotten", int64(run.Pick(9, 75)))
+	run.Floor("notarget_late_target_not_left_attached", int64(run.Pick(6, 50)))
 	run.Floor("cases_limit_none", 3)
 	run.Floor("cases_limit_burst<32K", 3)
 	run.Floor("cases_limit_64K", 3)
@@ -856,4 +862,325 @@ func c02lReconnect(t *testing.T, run *vk.Run, node *miniNode, src, tgt *miniClie
 		run.Distinct("reconnect|" + closer)
 	}
 	return undecided
+}
+
+
+// ---------------------------------------------------------------------------
+// "no target": the bridge ends before any target attached
+// ---------------------------------------------------------------------------
+
+// c02lNoTarget: a source opens a tunnel; before any target attaches the bridge is ended
+// (the server closes it through the bridge accessor - what an operator "kill tunnel" or a
+// quota stop does -, or the whole node context is cancelled), so Bridge.Start fails.
+// Once no goroutine is inside runBridgeLifecycle the server must have forgotten the
+// tunnel (no bridge by mapping / connection id, no routing record) and the source's
+// transport must be closed. A target that then arrives LATE with a TunnelOpen for that
+// tunnel id must be refused or, if it is accepted, must get its transport closed - with
+// no lifecycle goroutine left nothing would ever close it later, so "still open" at that
+// point means it stays attached to a dead bridge for ever.
+func c02lNoTarget(t *testing.T, run *vk.Run, shared *miniNode, ssrc, stgt *miniClient, n int) (undecided int) {
+	ctx := context.Background()
+	for i := 0; i < n; i++ {
+		if run.Violations() >= 10 {
+			return
+		}
+		if !c02lAwaitLifecycleEnd() {
+			run.Count("watchdog", 1)
+			return undecided + 1
+		}
+		ending := "bridge-closed-before-target"
+		node, src, tgt := shared, ssrc, stgt
+		if i%6 == 5 {
+			ending = "node-cancelled-before-target"
+			node = newMiniNode(t, miniOpts{NodeID: "node-x"})
+			src, tgt = node.NewClient(""), node.NewClient("")
+		}
+		cs := map[string]any{"id": i, "ending": ending}
+		run.Case("lifecycle-notarget", cs)
+		tid := fmt.Sprintf("c02-nt-%d", i)
+		mapping, err := node.CC.CreatePortMapping(&models.PortMapping{
+			ListenClientID: src.ClientID, TargetClientID: tgt.ClientID, Protocol: models.ProtocolTCP,
+			SourcePort: 18080, TargetHost: "10.1.2.3", TargetPort: 3306, SecretKey: "mk-" + tid, Status: models.MappingStatusActive,
+		})
+		if err != nil || mapping == nil {
+			t.Fatalf("c02: mapping setup failed: %v", err)
+		}
+		sc := node.MustConnect("")
+		if ok, err := sc.Login(src.ClientID, src.Secret, "tunnel"); !ok {
+			t.Fatalf("c02: source tunnel login failed: %v", err)
+		}
+		if ack, err := c02lOpen(sc, mapping.ID, tid, mapping.SecretKey); ack == nil || !ack.Success {
+			t.Fatalf("c02: source TunnelOpen failed: ack=%+v err=%v", ack, err)
+		}
+		br := node.SM.GetTunnelBridgeByMappingID(mapping.ID, 0)
+		if br == nil {
+			run.Count("notarget_bridge_not_visible", 1)
+			continue
+		}
+		if ending == "bridge-closed-before-target" {
+			br.Close()
+		} else {
+			node.Close()
+		}
+		if !c02lAwaitLifecycleEnd() {
+			run.Count("watchdog", 1)
+			return undecided + 1
+		}
+		det := map[string]any{"case": cs, "tunnel_id": tid, "mapping_id": mapping.ID, "srv_src_conn_closed": sc.sc.IsClosed()}
+		forgot := true
+		if b := node.SM.GetTunnelBridgeByMappingID(mapping.ID, 0); b != nil {
+			forgot = false
+			det["bridge_active"] = b.IsActive()
+			det["what"] = "Bridge.Start failed (ended before any target attached) and the bridge lifecycle is over, but the session manager still lists the tunnel"
+			run.Violation("C02:lifecycle|bridge-still-registered|by=mapping|ending=start-failed", det)
+		}
+		if ending == "bridge-closed-before-target" {
+			if st, err := node.Routing.LookupWaitingTunnel(ctx, tid); err == nil && st != nil {
+				forgot = false
+				run.Violation("C02:lifecycle|routing-record-left|ending=start-failed", det)
+			}
+		}
+		if !sc.sc.IsClosed() {
+			forgot = false
+			run.Violation("C02:closure|peer-conn-left-open|script=start-failed", det)
+		}
+		if forgot {
+			run.Count("notarget_forgotten", 1)
+		}
+		if ending == "bridge-closed-before-target" {
+			// a late target
+			tc := node.MustConnect("")
+			if ok, _ := tc.Login(tgt.ClientID, tgt.Secret, "tunnel"); ok {
+				ack, _ := c02lOpen(tc, mapping.ID, tid, mapping.SecretKey)
+				if !c02lAwaitLifecycleEnd() {
+					run.Count("watchdog", 1)
+					return undecided + 1
+				}
+				accepted := ack != nil && ack.Success
+				det2 := map[string]any{"case": cs, "tunnel_id": tid, "late_target_ack_success": accepted, "late_target_transport_closed_by_server": tc.sc.IsClosed(),
+					"bridge_found_for_late_target": node.SM.GetTunnelBridgeByConnectionID(tc.ConnID) != nil || node.SM.GetTunnelBridgeByMappingID(mapping.ID, 0) != nil}
+				switch {
+				case !accepted:
+					run.Count("notarget_late_target_refused", 1)
+					run.Count("notarget_late_target_not_left_attached", 1)
+				case tc.sc.IsClosed():
+					run.Count("notarget_late_target_closed", 1)
+					run.Count("notarget_late_target_not_left_attached", 1)
+				case det2["bridge_found_for_late_target"] == true:
+					det2["what"] = "a target arriving after the bridge had ended got a successful TunnelOpenAck and is attached to the dead bridge; no lifecycle goroutine is left, so it never observes closure"
+					run.Violation("C02:lifecycle|late-target-attached-to-dead-bridge", det2)
+				default:
+					// accepted, open, no bridge: the server started something new for it (not this scenario)
+					run.Count("notarget_late_target_accepted_without_bridge", 1)
+					run.Observe("notarget_late_last", det2)
+				}
+			}
+			tc.hc.Close()
+			tc.sc.Close()
+		}
+		sc.hc.Close()
+		sc.sc.Close()
+		if node != shared {
+			node.Close()
+		}
+		run.Eval(1)
+		run.Distinct("notarget|" + ending)
+	}
+	return undecided
+}
+
+// ---------------------------------------------------------------------------
+// long-lived tunnels under the real stale-connection sweeper
+// ---------------------------------------------------------------------------
+
+// TestVerifC02LongLived: a node with a short heartbeat timeout and the real sweeper
+// (startConnectionCleanup); both tunnel ends authenticate with a real tunnel-type
+// handshake and attach with TunnelOpen; the clients' control connections keep
+// heartbeating; the duplex transfer is paced by the harness so that it lasts several
+// heartbeat timeouts. Nobody closes: every byte must arrive and no end may see the end of
+// its stream before that (verdict = a reader saw end-of-stream early, never a deadline).
+func TestVerifC02LongLived(t *testing.T) {
+	vk.Quiet()
+	run := vk.Start(t, "C02", "longlived")
+	defer run.Finish()
+	const hbTimeout = 400 * time.Millisecond
+	run.Rule("mini-server with HeartbeatTimeout 400ms / CleanupInterval 50ms and the real sweeper; control connections heartbeat every 40ms; per tunnel both ends log in with connection_type=tunnel, TunnelOpen, then 40 chunks of 1..3000 bytes per direction paced 40ms apart (>= 4 heartbeat timeouts), 4 tunnels at a time; distinct = tunnel index")
+	sc := &session.SessionConfig{HeartbeatTimeout: hbTimeout, CleanupInterval: 50 * time.Millisecond, MaxConnections: 100000, MaxControlConnections: 100000}
+	node := newMiniNode(t, miniOpts{NodeID: "node-a", Session: sc})
+	defer node.Close()
+	src := node.NewClient("")
+	tgt := node.NewClient("")
+	stopHB := make(chan struct{})
+	hbDone := make(chan struct{})
+	go func() {
+		defer close(hbDone)
+		tk := time.NewTicker(40 * time.Millisecond)
+		defer tk.Stop()
+		for {
+			select {
+			case <-stopHB:
+				return
+			case <-tk.C:
+				src.Send(&packet.TransferPacket{PacketType: packet.Heartbeat})
+				tgt.Send(&packet.TransferPacket{PacketType: packet.Heartbeat})
+				src.DrainRaw()
+				tgt.DrainRaw()
+			}
+		}
+	}()
+	r := run.Rand("gen")
+	n := run.Pick(4, 16)
+	var undecided atomic.Int64
+	for batch := 0; batch < n; batch += 4 {
+		var wg sync.WaitGroup
+		for i := batch; i < batch+4 && i < n; i++ {
+			seed := r.Uint64()
+			sizes := make([][2]int, 40)
+			for k := range sizes {
+				sizes[k] = [2]int{1 + r.Intn(3000), 1 + r.Intn(3000)}
+			}
+			tid := fmt.Sprintf("c02-long-%d", i)
+			mapping, err := node.CC.CreatePortMapping(&models.PortMapping{
+				ListenClientID: src.ClientID, TargetClientID: tgt.ClientID, Protocol: models.ProtocolTCP,
+				SourcePort: 18080, TargetHost: "10.1.2.3", TargetPort: 3306, SecretKey: "mk-" + tid, Status: models.MappingStatusActive,
+			})
+			if err != nil || mapping == nil {
+				t.Fatalf("c02: mapping setup failed: %v", err)
+			}
+			scn, tcn := node.MustConnect(""), node.MustConnect("")
+			for _, e := range []struct {
+				c      *miniClient
+				id     int64
+				secret string
+			}{{scn, src.ClientID, src.Secret}, {tcn, tgt.ClientID, tgt.Secret}} {
+				if ok, err := e.c.Login(e.id, e.secret, "tunnel"); !ok {
+					t.Fatalf("c02: tunnel login failed: %v", err)
+				}
+				if ack, err := c02lOpen(e.c, mapping.ID, tid, mapping.SecretKey); ack == nil || !ack.Success {
+					t.Fatalf("c02: TunnelOpen failed: ack=%+v err=%v", ack, err)
+				}
+			}
+			run.Case("longlived", map[string]any{"tunnel": i})
+			wg.Add(1)
+			go func(i int) {
+				defer wg.Done()
+				totS, totT := 0, 0
+				for _, z := range sizes {
+					totS += z[0]
+					totT += z[1]
+				}
+				s2t, t2s := vk.Pattern(seed, 0, totS), vk.Pattern(seed^0x77, 0, totT)
+				mk := func(cl *miniClient, send, expect []byte) *c02lEnd {
+					return &c02lEnd{c: cl, send: send, expect: expect, gotAll: make(chan struct{}), badCh: make(chan struct{}), rDone: make(chan struct{}), wDone: make(chan struct{})}
+				}
+				S, T := mk(scn, s2t, t2s), mk(tcn, t2s, s2t)
+				go S.reader()
+				go T.reader()
+				began := time.Now()
+				offS, offT := 0, 0
+				early := ""
+			pace:
+				for _, z := range sizes {
+					if _, err := scn.hc.Write(s2t[offS : offS+z[0]]); err != nil {
+						early = "source write failed: " + err.Error()
+						break
+					}
+					if _, err := tcn.hc.Write(t2s[offT : offT+z[1]]); err != nil {
+						early = "target write failed: " + err.Error()
+						break
+					}
+					offS += z[0]
+					offT += z[1]
+					S.sent.Store(int64(offS))
+					T.sent.Store(int64(offT))
+					select {
+					case <-S.rDone:
+						early = "source end saw the end of its stream"
+						break pace
+					case <-T.rDone:
+						early = "target end saw the end of its stream"
+						break pace
+					case <-time.After(40 * time.Millisecond):
+					}
+				}
+				complete := false
+				if early == "" {
+					wd := time.NewTimer(20 * time.Second)
+					select {
+					case <-S.rDone:
+						early = "source end saw the end of its stream"
+					case <-T.rDone:
+						early = "target end saw the end of its stream"
+					case <-S.badCh:
+					case <-T.badCh:
+					case <-func() chan struct{} {
+						d := make(chan struct{})
+						go func() {
+							for _, ch := range []chan struct{}{S.gotAll, T.gotAll} {
+								select {
+								case <-ch:
+								case <-S.rDone:
+									return
+								case <-T.rDone:
+									return
+								}
+							}
+							close(d)
+						}()
+						return d
+					}():
+						complete = true
+					case <-wd.C:
+						run.Count("watchdog", 1)
+						undecided.Add(1)
+					}
+					wd.Stop()
+				}
+				det := map[string]any{"tunnel": i, "tunnel_id": tid, "elapsed_ms": time.Since(began).Milliseconds(), "heartbeat_timeout_ms": hbTimeout.Milliseconds(),
+					"src_sent": offS, "tgt_got": T.got.Load(), "tgt_sent": offT, "src_got": S.got.Load(), "of_src": totS, "of_tgt": totT,
+					"srv_src_conn_closed": scn.sc.IsClosed(), "srv_tgt_conn_closed": tcn.sc.IsClosed(), "observed": early,
+					"control_connections_alive": node.SM.GetControlConnectionByClientID(src.ClientID) != nil && node.SM.GetControlConnectionByClientID(tgt.ClientID) != nil}
+				for name, e := range map[string]*c02lEnd{"tgt->src": S, "src->tgt": T} {
+					if m := e.bad.Load(); m != nil {
+						det["direction"], det["mismatch"] = name, *m
+						run.Violation("C02:corrupt|kind=mismatch|limit=none", det)
+					}
+				}
+				if early != "" && S.bad.Load() == nil && T.bad.Load() == nil {
+					if det["control_connections_alive"] == true {
+						det["what"] = "a live tunnel was cut by the server although neither end closed and the clients kept heartbeating on their control connections"
+						run.Violation("C02:incomplete|limit=none|cause=server-closed-live-tunnel", det)
+					} else {
+						// the harness failed to keep the control connections alive: not judged
+						run.Count("longlived_control_connection_lost", 1)
+						undecided.Add(1)
+					}
+				}
+				if complete {
+					run.Count("longlived_complete", 1)
+					run.Max("longlived_max_ms", time.Since(began).Milliseconds())
+					if time.Since(began) >= 3*hbTimeout {
+						run.Count("longlived_outlived_3_heartbeat_timeouts", 1)
+					}
+				}
+				scn.hc.Close()
+				tcn.hc.Close()
+				<-S.rDone
+				<-T.rDone
+				run.Eval(1)
+				run.Distinct(fmt.Sprintf("longlived|%d", i))
+			}(i)
+		}
+		wg.Wait()
+		if run.Violations() >= 4 {
+			break
+		}
+	}
+	close(stopHB)
+	<-hbDone
+	if undecided.Load() == 0 {
+		run.Count("all_cases_decided", 1)
+	}
+	run.Floor("all_cases_decided", 1)
+	run.Floor("longlived_outlived_3_heartbeat_timeouts", int64(run.Pick(3, 12)))
 }
